@@ -116,7 +116,11 @@ Filters::Filters():
    mpLevelFilter( nullptr)
 {
 
-   setDuplicatePolicy( detail::DuplicatePolicy::ignore);
+   // only set the default policy if no policy has been set yet: the policy is
+   // a process-wide setting, creating another filter set (for a log or a log
+   // destination) must not silently change it back
+   if (mpDuplicatePolicy.get() == nullptr)
+      setDuplicatePolicy( detail::DuplicatePolicy::ignore);
 
 } // Filters::Filters
 
